@@ -91,6 +91,33 @@ def replay(case):
     A2 = fa.project(a)
     if A2 != A:
         evs.append({"op": "build", "kind": case["kind"], "calls": tagged, "outs": outs, "A": A2, "after": True})
+        return evs
+    # phase 2: change the automaton after it was converted once, and convert again (memoised results must not survive)
+    sts = sorted(a.states, key=fa.tag)
+    if sts:
+        for op, st in (("add_start_state", sts[-1]), ("add_final_state", sts[0])):
+            guard.call(getattr(a, op), st.value)
+        A3 = fa.project(a)
+        r = guard.call(a.to_regex, timeout=4.0)
+        ev = {"op": "to_regex", "A": A3, "plain": True, "words": [[fa.tag(x) for x in w] for w in words], "acc": [], "phase": 2}
+        if r[0] == "ok":
+            r2 = guard.call(r[1].to_epsilon_nfa, timeout=4.0)
+            if r2[0] == "ok":
+                ev["R"] = fa.project(r2[1])
+                acc = []
+                for w in words:
+                    r3 = guard.call(r[1].accepts, list(w), timeout=4.0)
+                    if r3[0] != "ok":
+                        ev["exc"] = "accepts:" + (r3[1] if r3[0] == "exc" else "Timeout")
+                        break
+                    if r3[1]:
+                        acc.append([fa.tag(x) for x in w])
+                ev["acc"] = acc
+            else:
+                ev["exc"] = "to_epsilon_nfa:" + (r2[1] if r2[0] == "exc" else "Timeout")
+        else:
+            ev["exc"] = r[1] if r[0] == "exc" else "Timeout"
+        evs.append(ev)
     return evs
 
 
